@@ -181,12 +181,16 @@ class ASPath(Attribute):
     def __eq__(self, other: object) -> bool:
         if not isinstance(other, ASPath):
             return False
-        return (
-            self.ID == other.ID
-            and self.FLAG == other.FLAG
-            and self._asn4 == other._asn4
-            and self._packed == other._packed
-        )
+        if self.ID != other.ID or self.FLAG != other.FLAG:
+            return False
+        if self._asn4 == other._asn4:
+            return self._packed == other._packed
+        # _asn4 is how the path is stored, not what it is: a path parsed from text is kept with
+        # 2-byte ASNs when they fit, the same path decoded from a 4-byte session with 4-byte ones
+        # (a segment is a list, and a set is not the sequence of the same ASNs, hence the ID)
+        return [(segment.ID, list(segment)) for segment in self.aspath] == [
+            (segment.ID, list(segment)) for segment in other.aspath
+        ]
 
     def __ne__(self, other: object) -> bool:
         return not self.__eq__(other)
